@@ -37,8 +37,8 @@ def bounds(tier):
             "installed": dict(cap=12, cap_slow=3, cap_mixed=2, cap_slow_mixed=0, cap_harvest=3),
         }
     return {
-        "generated": dict(cap=45, cap_slow=10, cap_mixed=6, cap_slow_mixed=3, cap_harvest=10),
-        "installed": dict(cap=27, cap_slow=5, cap_mixed=4, cap_slow_mixed=2, cap_harvest=4),
+        "generated": dict(cap=45, cap_slow=10, cap_mixed=6, cap_slow_mixed=2, cap_harvest=8),
+        "installed": dict(cap=27, cap_slow=5, cap_mixed=4, cap_slow_mixed=0, cap_harvest=4),
     }
 
 
